@@ -32,10 +32,10 @@ type ntNum struct {
 	Bits uint64
 }
 
-func numI(v int64) ntNum     { return ntNum{"int", uint64(v)} }
-func numU(v uint64) ntNum   { return ntNum{"uint", v} }
-func numC(v int32) ntNum     { return ntNum{"chr", uint64(int64(v))} }
-func numF(v float64) ntNum   { return ntNum{"flt", math.Float64bits(v)} }
+func numI(v int64) ntNum   { return ntNum{"int", uint64(v)} }
+func numU(v uint64) ntNum  { return ntNum{"uint", v} }
+func numC(v int32) ntNum   { return ntNum{"chr", uint64(int64(v))} }
+func numF(v float64) ntNum { return ntNum{"flt", math.Float64bits(v)} }
 func numFB(b uint64) ntNum { return ntNum{"flt", b} }
 
 func numLimbs(b uint64) []int {
@@ -178,7 +178,6 @@ func (d *numDriver) text(n ntNum) string {
 	d.spell[n] = s
 	return s
 }
-
 
 func projNum(o outcome) any {
 	switch o.Kind {
@@ -576,7 +575,7 @@ func init() {
 		// (b) seeded random 64-bit patterns, every combination of types
 		n := c.n
 		if n == 0 {
-			n = 2000
+			n = 1500
 			if c.thorough() {
 				n = 40000
 			}
